@@ -61,8 +61,6 @@ class Module:
         from .inline import inlinable_helpers, inline_function
 
         helpers = inlinable_helpers(self.tree)
-        if not helpers:
-            return
         used_all = set()
 
         def process(body):
@@ -110,12 +108,92 @@ class Module:
         return f"<Module {self.name}>"
 
 
+SIGNATURES: Dict[str, Tuple[List[str], int]] = {}  # callable name -> (parameters, number passed positionally)
+CONSTRUCTOR_NAMES = {"ndpoly", "from_attributes", "polynomial_from_attributes"}
+
+
+def _set_signatures(sources: Dict[str, str]) -> None:
+    """Parameter lists of the repository's own callables whose name is unique, so that positional arguments
+    of internal calls can be analysed as keywords (``from_attributes(e, c, n)`` == ``from_attributes(exponents=e,
+    coefficients=c, names=n)``)."""
+    found: Dict[str, list] = {}
+    for rel, src in sources.items():
+        if not rel.endswith(".py") or os.environ.get("VERIF_NO_KEYWORDS") == "1":
+            continue
+        try:
+            tree = ast.parse(src)
+        except SyntaxError:
+            continue
+        for node in tree.body:
+            if isinstance(node, ast.FunctionDef):
+                found.setdefault(node.name, []).append((node, False))
+            elif isinstance(node, ast.ClassDef) and node.name == "ndpoly":
+                for sub in node.body:
+                    if isinstance(sub, ast.FunctionDef) and sub.name == "__new__":
+                        found.setdefault("ndpoly", []).append((sub, True))
+                    if isinstance(sub, ast.FunctionDef) and sub.name == "from_attributes":
+                        static = any(isinstance(d, ast.Name) and d.id == "staticmethod" for d in sub.decorator_list)
+                        found.setdefault("from_attributes", []).append((sub, not static))
+    SIGNATURES.clear()
+    for name, defs in found.items():
+        if len(defs) != 1:
+            continue
+        func, bound = defs[0]
+        if func.args.vararg is not None or func.args.posonlyargs:
+            continue
+        params = [a.arg for a in func.args.args]
+        required = len(params) - len(func.args.defaults)
+        if bound:
+            params = params[1:]
+            required -= 1
+        if name in CONSTRUCTOR_NAMES:
+            required = 0  # the rules read every constructor argument by keyword
+        SIGNATURES[name] = (params, max(required, 0))
+
+
 class _Canonical(ast.NodeTransformer):
-    """Equivalent numpy spellings are analysed in one canonical form:
-    ``x.any(...)`` / ``x.all(...)`` (ndarray methods) become ``numpy.any(x, ...)`` / ``numpy.all(x, ...)``."""
+    """Equivalent spellings are analysed in one canonical form:
+    ``x.any(...)`` / ``x.all(...)`` (ndarray methods) become ``numpy.any(x, ...)`` / ``numpy.all(x, ...)``;
+    calls to the repository's own (uniquely named) functions pass the parameters without default positionally
+    and the defaulted ones by keyword; the polynomial constructors receive everything by keyword."""
+
+    def _keywords(self, node):
+        func = node.func
+        if isinstance(func, ast.Name):
+            name, root = func.id, None
+        elif isinstance(func, ast.Attribute):
+            name = func.attr
+            cur = func
+            while isinstance(cur, ast.Attribute):
+                cur = cur.value
+            root = cur.id if isinstance(cur, ast.Name) else ""
+            if name != "from_attributes" and root != "numpoly":
+                return node
+        else:
+            return node
+        if name not in SIGNATURES or any(isinstance(a, ast.Starred) for a in node.args):
+            return node
+        params, required = SIGNATURES[name]
+        if len(node.args) > len(params) or any(kw.arg is None for kw in node.keywords):
+            return node
+        bound = {}
+        for idx, arg in enumerate(node.args):
+            bound[params[idx]] = arg
+        for kw in node.keywords:
+            if kw.arg in bound:
+                return node
+            bound[kw.arg] = kw.value
+        # canonical form: required parameters positional, defaulted parameters by keyword
+        if any(p not in bound for p in params[:required]):
+            return node
+        node.args = [bound[p] for p in params[:required]]
+        order = [p for p in params[required:] if p in bound] + [k for k in bound if k not in params]
+        node.keywords = [ast.keyword(arg=k, value=bound[k]) for k in order]
+        return node
 
     def visit_Call(self, node):
         self.generic_visit(node)
+        node = self._keywords(node)
         func = node.func
         if isinstance(func, ast.Attribute) and func.attr in ("any", "all") and not (
             isinstance(func.value, ast.Name) and func.value.id in ("numpy", "np", "numpoly", "builtins")
@@ -280,14 +358,18 @@ class Repo:
         for rel in self.overrides:
             if rel not in relpaths and (rel.endswith(".py") or rel.endswith(".pyx")):
                 relpaths.append(rel)
+        sources = {}
         for rel in sorted(relpaths):
             if rel in self.overrides:
                 if self.overrides[rel] is None:
                     continue
-                src = self.overrides[rel]
+                sources[rel] = self.overrides[rel]
             else:
                 with open(os.path.join(self.root, rel), encoding="utf-8") as handle:
-                    src = handle.read()
+                    sources[rel] = handle.read()
+        _set_signatures(sources)
+        for rel in sorted(sources):
+            src = sources[rel]
             parts = rel[: rel.rindex(".")].split(os.sep)
             is_package = parts[-1] == "__init__"
             if is_package:
